@@ -162,6 +162,31 @@ def check_case(case, ctx):
         ctx.ok(fp=enc, case={k: v for k, v in case.items() if k != "plain"} | {"plain_len": len(plain)}, classes=(
             f"detect:marker={case['marker']},size={case['size_ok'] and not case['trailing']}", f"prepend:{min(case['prepend'] // 300, 3)}",
             "stub:decoy-markers" if stub.count(b"\xff\xff\xff") else "stub:clean", f"maxrange:{'default' if not case.get('maxrange') else 'stub+' + str(case['maxrange'])}"))
+    elif case["op"] == "shortfile":
+        # the direct constructor on a file that ends before or inside the nonce/size field: an empty decoded file
+        from dissect.cobaltstrike import pe
+
+        ctx.mon("history.model")
+        data, off = case["data"], case["nonce_offset"]
+        for fileobj in ("bytesio",):
+            xf = xordecode.XorEncodedFile(io.BytesIO(data), nonce_offset=off)
+            problems = []
+            try:
+                if xf.tell() != 0:
+                    problems.append(f"tell() is {xf.tell()} right after construction")
+                if xf.read() != b"" or xf.read(4) != b"":
+                    problems.append("read() returns data")
+                pos = xf.tell()
+                if xf.seek(pos) != pos:
+                    problems.append("seek(tell()) does not return tell()")
+                if pe.find_mz_offset(xf, start_offset=None) is not None:
+                    problems.append("find_mz_offset found a header in an empty decoded file")
+            except Exception as e:  # noqa: BLE001
+                problems.append(f"{type(e).__name__}: {e}")
+            if problems:
+                ctx.violation("history.model", f"file of {len(data)} bytes opened with nonce_offset={off}: " + "; ".join(problems), case)
+                return
+        ctx.ok(fp=("short", data, off), nontrivial=True, case=case, classes=("shortfile",))
     elif case["op"] == "plainfile":
         ctx.mon("detect.reject")
         try:
@@ -298,6 +323,9 @@ def run_shard(shard, ctx):
                         "size_ok": size_ok, "trailing": trailing, "prepend": prepend,
                         "maxrange": rng.choice([0, 0, 1, 8, 100, 2000]) if (marker or (size_ok and not trailing)) else 0}, ctx)
     elif kind == "plain":
+        for off in (0, 1, 5, 33):
+            for ln in range(0, off + 9):
+                check_case({"op": "shortfile", "data": rng.randbytes(ln), "nonce_offset": off}, ctx)
         for i in range(shard["n"]):
             if ctx.out_of_time():
                 break
